@@ -254,7 +254,7 @@ pub fn run_c07(out: &mut Out, rng: &mut Rng, tier: Tier) -> String {
         }
     }
     // a fixed program on matrices beyond 1024 / 4096 elements
-    for &(nr, nc) in &LARGE[..2] {
+    for &(nr, nc) in LARGE[..2].iter().chain(VERY_LARGE.iter()) {
         let prog = vec![Step::New(0, nr, nc, 1), Step::New(1, nr, nc, 500000), Step::Transpose(0), Step::Transpose(0), Step::SwapRows(0, 0, nr - 1), Step::SwapCols(0, 1, nc - 1),
             Step::Ew(3, 0, 1, "ref", "gen"), Step::Ew(3, 0, 1, "assign", "add"), Step::Eq(0, 1), Step::Overwrite(1, 0), Step::Eq(0, 1), Step::Nth(0, "col_mut", nc - 1), Step::Views(1, "rows")];
         out.case(&format!("program large {nr}x{nc} world=row-major"));
